@@ -397,10 +397,16 @@ class SensorRunner(Base):
                 return lib.Probe(lambda t, name=p[1]: getattr(t, name, None), target)
             raise HarnessError(p)
 
-        for si, sc in enumerate(case['sensors']):
+        self.sensors = [None] * len(case['sensors'])
+        self.sensor_probes = [None] * len(case['sensors'])
+        self.created_at = [None] * len(case['sensors'])     # (time, number of parts finished before) at construction
+
+        def make_sensor(si):
+            sc = case['sensors'][si]
             kw = {}
             if sc.get('cap') is not None:
                 kw['data_capacity'] = sc['cap']
+            self.created_at[si] = (env.now, len(self.finished))
             if sc['k'] == 'periodic':
                 probes = [mk_probe(p, tgt) for p in sc['probes']]
                 s = lib.PeriodicSensor(sc['interval'], probes, name=sc.get('name', f'sensor{si}'), **kw)
@@ -408,21 +414,37 @@ class SensorRunner(Base):
                 probes = [mk_probe(p, None) for p in sc['probes']]
                 s = lib.OutputPartSensor(proc, probes, sc['n'], name=sc.get('name', f'sensor{si}'), **kw)
             self.sidx_of[id(s)] = si
-            self.sensors.append(s)
-            self.sensor_probes.append(probes)
+            self.sensors[si] = s
+            self.sensor_probes[si] = probes
             for ci in range(sc.get('callbacks', 1)):
                 s.add_on_sense_callback(self.mk_cb(si, ci, sc))
             for ci, times in sc.get('cms', []):
                 for _ in range(times):
                     cms_list[ci].add_sensor(s)
-        self.manual = False
+            if env.now > 0:
+                self.bump('sensor_created_late')
+
         self.finished = []       # parts finished by the processor, in order (harness callback)
+        between = []
+        for si, sc in enumerate(case['sensors']):
+            late = sc.get('late')
+            if late is None:
+                make_sensor(si)
+            elif late[0] == 'event':
+                # constructed from inside an event while the simulation is running
+                env.schedule_event(late[1], -2, Act(lambda si=si: make_sensor(si), f'mk_sensor{si}'), late[2], f'mk{si}')
+            else:
+                between.append(si)   # constructed between two simulate() calls
+        self.manual = False
         proc.add_finish_processing_callback(lambda p, part: self.finished.append(
             (env.now, part.id, part.quality, part.value, part)))
         for i, op in enumerate(case['ops']):
             env.schedule_event(op['t'], -2, Act(lambda op=op: self.exec_op(op), f'sens_op{i}'), op['pr'], f'op{i}')
         self.samples = [[] for _ in self.sensors]     # per sensor: list of (time, values) as observed via callback 0
-        for dur in case['plan']:
+        for seg, dur in enumerate(case['plan']):
+            if seg == 1:
+                for si in between:
+                    make_sensor(si)
             system.simulate(dur, print_summary=False)
             self.stats['sim_time'] += dur
         self.final_check()
@@ -463,7 +485,7 @@ class SensorRunner(Base):
             self.bump('inplace_mutation')
         elif k == 'manual':
             # an extra measurement requested by hand on an output-part sensor: the automatic cadence must not move
-            outs = [i for i, sc in enumerate(self.case['sensors']) if sc['k'] == 'output']
+            outs = [i for i, sc in enumerate(self.case['sensors']) if sc['k'] == 'output' and self.sensors[i] is not None]
             if outs:
                 si = outs[op['v'] % len(outs)]
                 self.manual = True
@@ -486,6 +508,9 @@ class SensorRunner(Base):
         env, case = self.env, self.case
         for si, sc in enumerate(case['sensors']):
             s = self.sensors[si]
+            if s is None:
+                continue        # its construction was planned for after the end of the run
+            t0, fin0 = self.created_at[si]
             ncb = sc.get('callbacks', 1)
             mine = [c for c in self.cb_log if c[0] == si]
             # (c) callbacks once each, registration order, right arguments
@@ -506,7 +531,7 @@ class SensorRunner(Base):
             # (a)/(e) when
             if sc['k'] == 'periodic':
                 exp_t = []
-                t = 0
+                t = t0           # the first sample comes one interval after the sensor came to life
                 while True:
                     t = t + sc['interval']
                     if t > env.now:
@@ -523,7 +548,7 @@ class SensorRunner(Base):
                 exp_vals = None
             else:
                 n = sc['n']
-                fin = self.finished
+                fin = self.finished[fin0:]     # parts finished since the sensor exists
                 exp_idx = list(range(0, len(fin), n + 1))
                 n_manual = len([c for c in mine if c[1] == 0 and c[9]]) if ncb else self.stats['reach'].get('manual_sense', 0)
                 count = len(exp_idx) + (n_manual if ncb else 0)
@@ -597,6 +622,10 @@ def gen_sensor(rng):
         sc['cms'] = [[ci, rng.choice((1, 1, 2))] for ci in range(n_cms) if rng.random() < 0.6]
         if rng.random() < 0.25:
             sc['name'] = 'same_name'     # names need not be unique
+        if rng.random() < 0.25:
+            # the sensor is constructed while the simulation is running, or between two simulate() calls
+            sc['late'] = rng.choice((['event', rng.choice((0, 0.25, 0.5, 1, 1.5, 2.5, horizon * 0.5)), rng.choice((2, 4.5, 6, 11))],
+                                     ['between']))
         sensors.append(sc)
     ops = []
     tg = [x * 0.25 for x in range(0, int(horizon * 4) + 1)]
@@ -605,6 +634,8 @@ def gen_sensor(rng):
         ops.append({'t': rng.choice(tg), 'pr': rng.choice((2, 3.5, 4, 4.5, 6, 9, 11)), 'op': k, 'v': rng.randrange(100)})
     ops.sort(key=lambda o: (o['t'], -o['pr']))
     plan = [horizon] if rng.random() < 0.7 else [horizon * 0.5, horizon * 0.5]
+    if any(sc.get('late') == ['between'] for sc in sensors):
+        plan = [horizon * 0.5, horizon * 0.5]
     return {'engine': 'schedsim', 'kind': 'sensor', 'sensors': sensors, 'cms': n_cms,
             'line': {'src_ct': rng.choice((0.25, 0.5, 1)), 'ct': rng.choice((0, 0.25, 0.5, 1)),
                      'parts': rng.choice((None, 5, 20)), 'sink_ct': rng.choice((0, 0.5))},
